@@ -20,6 +20,7 @@
      dangling      dangling or consumed bucket / proof / reservation ids, non-existent, wrong-type,
                    foreign or internal addresses, never-allocated named addresses
      wrongres      bucket / proof of another resource kind (non-fungible, empty, other fungible)
+     cross         boundary amount at a Decimal path x every variant of a mode-like enum of the same input
      twice         the call repeated in the same transaction (ids consumed by the first call)
      proofthenuse  a live proof of every bucket created before the buckets are passed
    The concrete values behind (operator, kind, variant) are a fixed table of the harness.   *)
@@ -52,7 +53,7 @@ NVariants(op, kind) ==
     [] op = "wrongres" -> IF kind = "bucket" THEN 4 ELSE 3
     [] op = "dangling" -> CASE kind = "ref" -> 5 [] kind = "reservation" -> 2 [] kind = "own" -> 1 [] OTHER -> 3
     [] op = "boundary" -> CASE kind \in {"sint", "uint", "bytes", "any", "pdecimal"} -> 4
-                            [] kind = "decimal" -> 7 [] kind \in {"string", "nflid"} -> 5
+                            [] kind = "decimal" -> 16 [] kind \in {"string", "nflid"} -> 5
                             [] kind \in {"array", "map"} -> 3 [] kind = "bool" -> 2
                             [] kind = "enum" -> 6 [] OTHER -> 1
 Cap(n, m) == IF m = 0 \/ n <= m THEN n ELSE m
@@ -76,12 +77,24 @@ AuthsFor(e, A) == LET B == IF e.access \in {"ownpkg", "outer", "root"} THEN A \ 
                   IN IF B = {} THEN {"owner"} ELSE B
 \* the edge operators use EdgeStates where the function has a receiver there, else wherever it has one
 EdgeStatesOf(e) == LET S == {e.states[i] : i \in DOMAIN e.states} IN IF S \cap EdgeStates # {} THEN S \cap EdgeStates ELSE S
+\* boundary of an enum = each of its variants in turn (the catalog gives the number of variants)
+VariantsAt(e, op, i) == IF op = "boundary" /\ e.paths[i].k = "enum" THEN (IF e.paths[i].n > 0 THEN e.paths[i].n ELSE 1)
+                        ELSE VariantsFor(op, e.paths[i].k)
 ForOp(e, op, SS, AA) ==
   UNION {{[f |-> e.f, op |-> op, path |-> e.paths[i].p, kind |-> e.paths[i].k, k |-> k, state |-> s, auth |-> a] :
-            k \in 0..(VariantsFor(op, e.paths[i].k) - 1), s \in SS, a \in AA}
+            k \in 0..(VariantsAt(e, op, i) - 1), s \in SS, a \in AA}
          : i \in PathsFor(e, op)}
+\* "cross": every boundary amount at a Decimal path x EVERY variant of every mode-like enum (all variants
+\* field-less: rounding modes, withdraw strategies' modes, ...) of the same input - never subsampled
+Cross(e, SS, AA) ==
+  UNION {UNION {{[f |-> e.f, op |-> "cross", path |-> e.paths[i].p, kind |-> "decimal", k |-> k,
+                  path2 |-> e.paths[j].p, k2 |-> k2, state |-> s, auth |-> a] :
+                   k \in 0..(NVariants("boundary", "decimal") - 1), k2 \in 0..(e.paths[j].n - 1), s \in SS, a \in AA}
+                : j \in {j \in DOMAIN e.paths : e.paths[j].k = "enum" /\ e.paths[j].unit /\ e.paths[j].n > 1}}
+         : i \in {i \in DOMAIN e.paths : e.paths[i].k = "decimal"}}
 Purposes(e) ==
   UNION {ForOp(e, op, EdgeStatesOf(e), AuthsFor(e, EdgeAuths)) : op \in EdgeOps}
+  \cup Cross(e, EdgeStatesOf(e), AuthsFor(e, EdgeAuths \cup {"owner"}))
   \cup UNION {ForOp(e, op, StatesOf(e), AuthsFor(e, Auths)) : op \in BulkOps}
   \cup {[f |-> e.f, op |-> op, path |-> <<>>, kind |-> "call", k |-> k, state |-> s, auth |-> a] :
           op \in {o \in CallOps : o # "proofthenuse" \/ HasKind(e, "bucket")}, k \in 0..1,
